@@ -20,6 +20,7 @@ process and as a real process) while
   adversary (vmon.hostile) drives the samplers into those branches.
 """
 import collections
+import io
 import itertools
 import contextlib
 import math
@@ -63,7 +64,7 @@ REQUIRED = [
     "opt:plantclique", "opt:plantbiclique", "opt:addedges", "opt:splitedges", "opt:save",
     "branch:glrm:dense", "branch:glrm:sparse", "branch:glrm:sparse-rejected-sample",
     "branch:regular:retry", "branch:regular:retries-exhausted", "branch:regular:restart",
-    "dense_regular_requests", "dense_regular_restarts",
+    "dense_regular_requests", "dense_regular_restarts", "graphs_read_from_pipes",
     "branch:addedges:sparse-rejected-sample", "branch:addedges:dense-fallback",
     "branch:gnp:multipartite", "glrm_requests_at_maximum", "gnm_requests_at_maximum",
 ]
@@ -1010,6 +1011,113 @@ ODD_FILE_NAMES = ["plain", "net{v2}", "K{}", "B{left}", "{0}", "}{", "{", "a{0!r
                   "$(x)", "in$VMONVAR", "${VMONVAR}", "cost$", "~tilde", "semi;colon", "it's", 'q"uote', "back\\slash", "star*", "tilde~", "hash#1", "c", "p edge", "+ 3 random edges"]
 
 
+def case_pipe_base(ctx, gtype, nseeds):
+    """A graph given as a file that is not a regular file: a named pipe, and /dev/fd/N as a shell's process substitution
+    produces (`kthlist <(zcat g.kthlist.gz)`).  Such files report size 0 and cannot be rewound, but deliver the whole
+    graph: the request, with or without options, is an ordinary feasible one."""
+    import threading
+    import cnfgen.graphs as cg
+    r = ctx.rng("c15-pipebase", gtype)
+    tmp = tempfile.mkdtemp(prefix="vmon-c15p-")
+    try:
+        for k in range(4 * nseeds):
+            fmt = ("kthlist", "gml", "dimacs")[k % 3] if gtype != "bipartite" else ("kthlist", "matrix", "gml")[k % 3]
+            if gtype == "simple":
+                n = r.randint(4, 7)
+                E = {frozenset(p) for p in itertools.combinations(range(1, n + 1), 2) if r.random() < 0.4}
+                G = cg.Graph(n)
+                for e in E:
+                    G.add_edge(*sorted(e))
+                want = ("simple", n, frozenset(E))
+                opts = r.choice([[], ["addedges", "0"], ["plantclique", "1"]])
+            elif gtype == "bipartite":
+                L, R = r.randint(2, 4), r.randint(2, 5)
+                E = {(u, v) for u in range(1, L + 1) for v in range(1, R + 1) if r.random() < 0.4}
+                G = cg.BipartiteGraph(L, R)
+                for e in sorted(E):
+                    G.add_edge(*e)
+                want = ("bipartite", (L, R), frozenset(E))
+                opts = r.choice([[], ["addedges", "0"], ["plantbiclique", "0", "0"]])
+            else:
+                n = r.randint(3, 6)
+                E = {(u, v) for u in range(1, n + 1) for v in range(u + 1, n + 1) if r.random() < 0.4}
+                G = cg.DirectedGraph(n)
+                for e in sorted(E):
+                    G.add_edge(*e)
+                want = ("dag", n, frozenset(E))
+                opts = []
+            buf = io.StringIO()
+            try:
+                cg.writeGraph(G, buf, gtype, fmt)
+            except Exception:       # noqa: BLE001
+                ctx.count("file_base_not_prepared")
+                continue
+            text = buf.getvalue()
+            for source in ("fifo", "devfd"):
+                fds = []
+                if source == "fifo":
+                    path = os.path.join(tmp, "pipe%d.%s" % (k, fmt))
+                    os.mkfifo(path)
+
+                    def feed(path=path):
+                        try:
+                            with open(path, "w") as f:
+                                f.write(text)
+                        except OSError:
+                            pass
+                else:
+                    rd, wr = os.pipe()
+                    fds = [rd]
+                    path = "/dev/fd/%d" % rd
+
+                    def feed(wr=wr):
+                        try:
+                            with os.fdopen(wr, "w") as f:
+                                f.write(text)
+                        except OSError:
+                            pass
+                th = threading.Thread(target=feed, daemon=True)
+                th.start()
+                save = os.path.join(tmp, "out%d.%s" % (k, fmt))
+                toks = [fmt, path] + opts + (["save", fmt, save] if k % 2 else [])
+                st, val, obs = build(ctx, gtype, toks, ("fair", 0, r.randrange(1 << 30)))
+                if source == "fifo":
+                    try:            # let a writer go whose pipe was never opened
+                        os.close(os.open(path, os.O_RDONLY | os.O_NONBLOCK))
+                    except OSError:
+                        pass
+                for fd in fds:
+                    try:
+                        os.close(fd)
+                    except OSError:
+                        pass
+                th.join(5)
+                lab = "%s graph `%s %s %s` where the file is %s" % (gtype, fmt, "<pipe>", " ".join(toks[2:]).replace(tmp, "<dir>"),
+                                                                 "a named pipe" if source == "fifo" else "/dev/fd/N of a pipe")
+                ctx.count("graphs_read_from_pipes")
+                if st == "exc":
+                    ctx.violation("file:pipe:%s" % ("refuses-readable-file" if isinstance(val, ValueError) else "raises:" + type(val).__name__),
+                                  "%s ended in %r" % (lab, val))
+                    continue
+                try:
+                    got = snapshot(gtype, val)
+                except Unreadable as e:
+                    ctx.violation("file:result-unreadable", "%s: %s" % (lab, e))
+                    continue
+                if got != want:
+                    ctx.violation("file:pipe:graph-differs-from-file", "%s: got %s, the pipe delivered %s" % (lab, show(got), show(want)))
+                if k % 2:
+                    try:
+                        f = ref.read_saved(GRAPH_KIND[gtype], fmt, save)
+                        if f != want:
+                            ctx.violation("save:%s:file-differs-from-graph" % fmt, "%s: file holds %s, the graph is %s" % (lab, show(f), show(want)))
+                    except (ref.FileFormatError, OSError) as e:
+                        ctx.violation("save:%s:file-not-in-format" % fmt, "%s: %s" % (lab, e))
+                ctx.judged(("pipe-base", gtype, fmt, source, tuple(opts), k % 2), nontrivial=True, sample={"spec": lab})
+    finally:
+        shutil.rmtree(tmp, ignore_errors=True)
+
+
 def case_file_base(ctx, gtype, nseeds):
     """A graph given as a file (whose path may contain characters that mean something to string formatting, shells or
     the formats themselves), followed by each option: the option acts on the graph in the file."""
@@ -1632,6 +1740,7 @@ def workload(tier, seed):
             yield "options", {"gtype": "bipartite", "base": base, "optsets": part, "nseeds": 80 if T else 2}
     for gtype in ("simple", "bipartite", "dag"):
         yield "file_base", {"gtype": gtype, "nseeds": 3 if T else 1}
+        yield "pipe_base", {"gtype": gtype, "nseeds": 3 if T else 1}
     for (gtype, cons), lists in family_arglists(tier).items():
         ints_only = [a for a in lists if a and all(re.match(r"-?[0-9]+$", t) for t in a)]
         if cons == "shift":
